@@ -149,3 +149,23 @@ def inferred(seed, k=2):
         if _ok_for_dating(ts):
             out.append(Inp(f"inferred{seed}_{i}", ts, 5e-3, 100, {"contemp", "inferred"}))
     return out
+
+
+def tiny_diploid(seed, k=3):
+    """Very small diploid inputs (one or two trees, a handful of mutations of which one to three
+    are singletons): on such inputs every unphased singleton may keep its block's first edge."""
+    out = []
+    rng = np.random.default_rng(seed + 777)
+    i = 0
+    while len(out) < k and i < 400:
+        i += 1
+        ts = build.sim(n=2, L=int(rng.choice([40, 80])), rho=float(rng.choice([0, 2e-4])), mu=float(rng.choice([2e-4, 5e-4])),
+                       Ne=100, seed=int(rng.integers(1, 2**31)))
+        if not _ok_for_dating(ts) or ts.num_trees > 2:
+            continue
+        is_s = np.zeros(ts.num_nodes, dtype=bool)
+        is_s[ts.samples()] = True
+        nsing = int(np.sum(is_s[ts.mutations_node]))
+        if 1 <= nsing <= 3 and ts.num_mutations > nsing:
+            out.append(Inp(f"tinydip{seed}_{i}", ts, 5e-4, 100, {"contemp", "diploid", "tiny"}))
+    return out
